@@ -13,16 +13,15 @@ P = {
     "id": "C09",
     "coq_targets": ["Properties/C09.vo", "Run/Eval_C09.vo"],
     "theorems_module": "Properties.C09",
-    "theorems": ["C09_trust_is_membership", "C09_untrusted_noninterference", "C09_untrusted_not_passed_on",
-                 "C09_trusted_overrides_exactly",
-                 "C09_trust_is_membership_pinned", "C09_untrusted_noninterference_pinned", "C09_F1_pinned_refuted",
-                 "C09_F1_pinned_noninterference_refuted",
-                 "C09_nonvacuous_untrusted", "C09_nonvacuous_former_F1_input", "C09_nonvacuous_trusted"],
+    "theorems": ["C09_trust_is_membership", "C09_trust_is_membership_configured", "C09_untrusted_noninterference",
+                 "C09_untrusted_connection_only", "C09_untrusted_not_passed_on", "C09_trusted_overrides",
+                 "C09_trusted_exactly_its_component", "C09_upstream_forwarding_is_composed", "C09_contains_never_panics",
+                 "C09_F1_pinned_refuted", "C09_F1_pinned_noninterference_refuted"],
     "streams": [{
         "name": "entrypoints", "pkg": "./internal/zzverif/c09", "test": "TestVerifC09",
         "overlay": dict(ASSEMBLY_OVERLAY, **{"internal/zzverif/c09/c09_test.go": "c09/c09_test.go"}),
         "eval_module": "Run.Eval_C09", "check_term": "check true",
-        "n_quick": 2400, "n_thorough": 60000, "findings": {}, "shard": 300,
+        "n_quick": 1800, "n_thorough": 40000, "findings": {}, "shard": 120,
     }],
     "rule": "generated trusted_proxies lists (single IPv4/IPv6/IPv4-mapped addresses, CIDR ranges of both families, unparsable "
             "entries, empty, option absent) x peers (RemoteAddr: IPv4, IPv6, IPv4-mapped, zoned, unix socket, garbage; about half aimed "
